@@ -158,13 +158,12 @@ Print Assumptions C01_standard_baud_rates.
    that panics ends the transcript as in the driver.
    Hypotheses: parameters the builder can produce; total applications (any number, any state type);
    `ins_ok 0 ins`: poll times in [0, 2^62), strictly increasing and > 0 (the harness clock advances before
-   every poll), received bytes are bytes; and `transcript_ok .. no_stale ..`: the run does not pass
-   through a state "Offline with a last_bus_activity recorded" - reachable only by the station re-creating
-   itself after the second address collision while listening with further telegrams in the same buffer
-   (two stations with one address: outside the class of C01; observation O9).  The rules are exact in that
-   corner too as far as fuzzing the extracted model can tell (R01 rules adapted: an offline station observes
-   nothing, the claim reference survives the self-offline poll); the hypothesis is kept because the proof
-   of the timing invariant uses it.
+   every poll), received bytes are bytes.  ALL such histories: no class of inputs is excluded.
+   The corner O9 is included: the station re-creates itself after the second address collision while
+   listening; with further telegrams in the same buffer the code keeps last_bus_activity = now in the offline
+   station and may claim in the very poll that takes it online again (two stations with one address: outside the
+   class of C01, not a property violation).  The R01 rules follow the code there (an offline station observes
+   nothing; the claim reference is re-based at the self-offline poll).
    Conclusion: no rule of property C01 (R01_tx_while_busy, R01_sync_pause, R01_who_may_transmit,
    R01_check_pass_before_slot, R01_claim_before_timeout) is reported.  The separate promptness monitor
    Model/FdlPrompt.v (P01_sync_pause_exceeded) is NOT covered. *)
@@ -173,14 +172,14 @@ From PB Require Import FdlOracle FdlOracleSound1 FdlOracleSound3.
 Theorem C01_oracle_sound : forall (A : Type) (ops : app_ops A) (p : params),
   apps_total A ops -> builder_valid p ->
   forall (apps : list A) (ins : list minput),
-  ins_ok 0 ins -> transcript_ok A ops p no_stale apps ins ->
+  ins_ok 0 ins ->
   forall k r, In (k, r) (monitor p (length apps) (model_transcript A ops p apps ins)) -> rule_prop r <> PC01.
 Proof. exact c01_oracle_sound. Qed.
 Print Assumptions C01_oracle_sound.
 
-(* non-vacuity and the corner: a model history (station 3, 19.2 kbit/s, no applications) that goes
-   through the excluded state - three token telegrams with the own source address in one buffer while
-   listening - and is set online again much later: it claims in the poll that takes it online.  The monitor
+(* non-vacuity and the corner O9: a model history (station 3, 19.2 kbit/s, no applications) that goes
+   through the state "Offline with last_bus_activity recorded" (`no_stale` fails) - three token telegrams with
+   the own source address in one buffer while listening - and is set online again much later: it claims in the poll that takes it online.  The monitor
    accepts this transcript (before the adaptation of the rules it reported R01_who_may_transmit at event 5). *)
 Definition C01_ex_params : params := mkParams 3 B19200 100 80000 1 16 1 11 None.
 Definition C01_ex_inputs : list minput :=
